@@ -110,6 +110,23 @@ func startCallers(c *g.Clnt, K int) (*sync.WaitGroup, []callRes) {
 	return &wg, res
 }
 
+// startCallersFrom launches n more callers with indices from, from+1, …
+func startCallersFrom(c *g.Clnt, from, n int) (*sync.WaitGroup, []callRes) {
+	var wg sync.WaitGroup
+	res := make([]callRes, n)
+	for i := 0; i < n; i++ {
+		wg.Add(1)
+		go func(i int) {
+			defer wg.Done()
+			tc := c.NewFcall()
+			g.PackTread(tc, 5, uint64(from+i), 1000)
+			rc, err := c.Rpc(tc)
+			res[i] = callRes{rc, err, true}
+		}(i)
+	}
+	return &wg, res
+}
+
 func waitWG(wg *sync.WaitGroup, d time.Duration) bool {
 	ch := make(chan bool)
 	go func() { wg.Wait(); close(ch) }()
@@ -181,40 +198,119 @@ func genC09(c *Ctx) {
 		}
 		// every permutation for up to 5 outstanding is reached over the seeds; random beyond
 		order := r.Perm(K)
-		kinds := make([]string, K)
-		var stream []byte
+		// a second wave of calls is issued after the first `split` replies have been consumed,
+		// while the other calls of the first wave are still outstanding
+		split := r.Intn(K + 1)
+		K2 := []int{0, 0, 1, 2, 5}[r.Intn(5)]
+		kinds := make([]string, K+K2)
 		evs := []string{}
 		for _, q := range reqs {
 			evs = append(evs, fmt.Sprintf("a%d", q.caller), fmt.Sprintf("q%d", q.caller))
 		}
-		for _, idx := range order {
-			q := reqs[idx]
-			kinds[q.caller] = []string{"ok", "ok", "ok", "rerror", "mismatch"}[r.Intn(5)]
-			stream = append(stream, reply(kinds[q.caller], q, msize)...)
-			evs = append(evs, fmt.Sprintf("d%d:%d", q.caller, q.caller), fmt.Sprintf("r%d", q.caller))
+		mkStream := func(idxs []int, rq []peerReq) []byte {
+			var st []byte
+			for _, idx := range idxs {
+				q := rq[idx]
+				kinds[q.caller] = []string{"ok", "ok", "ok", "rerror", "mismatch"}[r.Intn(5)]
+				st = append(st, reply(kinds[q.caller], q, msize)...)
+				evs = append(evs, fmt.Sprintf("d%d:%d", q.caller, q.caller), fmt.Sprintf("r%d", q.caller))
+			}
+			return st
 		}
-		var cuts []int
-		for x := 0; x < r.Intn(12); x++ {
-			cuts = append(cuts, 1+r.Intn(len(stream)))
-		}
-		sort.Ints(cuts)
-		go func() {
+		send := func(stream []byte) {
+			if len(stream) == 0 {
+				return
+			}
+			var cuts []int
+			for x := 0; x < r.Intn(12); x++ {
+				cuts = append(cuts, 1+r.Intn(len(stream)))
+			}
+			sort.Ints(cuts)
 			for _, ch := range chunksOf(stream, cuts) {
 				b.Write(ch)
 				if r.Intn(4) == 0 {
 					time.Sleep(time.Duration(r.Intn(300)) * time.Microsecond)
 				}
 			}
-		}()
-		if !waitWG(wg, 10*time.Second) {
-			c.oracleFail("C09/hang", fmt.Sprintf("calls did not return (K=%d)", K), line)
+		}
+		first := mkStream(order[:split], reqs)
+		hung := false
+		var wg2 *sync.WaitGroup
+		var res2 []callRes
+		if K2 > 0 {
+			go send(first)
+			// the first `split` callers have returned before the second wave starts
+			dl := time.Now().Add(10 * time.Second)
+			for {
+				n := 0
+				for _, idx := range order[:split] {
+					if res[reqs[idx].caller].ok {
+						n++
+					}
+				}
+				if n == split || time.Now().After(dl) {
+					hung = n != split
+					break
+				}
+				time.Sleep(200 * time.Microsecond)
+			}
+			wg2, res2 = startCallersFrom(cl, K, K2)
+			var reqs2 []peerReq
+			for len(reqs2) < K2 && !hung {
+				select {
+				case q := <-p.reqs:
+					if tagsSeen[q.tag] {
+						live := false
+						for _, idx := range order[split:] {
+							if reqs[idx].tag == q.tag {
+								live = true
+							}
+						}
+						if live {
+							c.oracleFail("C09/duplicate-tag", fmt.Sprintf("tag %d used by two outstanding calls", q.tag), line)
+						}
+					}
+					reqs2 = append(reqs2, q)
+				case <-time.After(5 * time.Second):
+					c.oracleFail("C09/requests-missing", fmt.Sprintf("peer saw %d of %d requests of the second wave", len(reqs2), K2), line)
+					hung = true
+				}
+			}
+			for _, q := range reqs2 {
+				evs = append(evs, fmt.Sprintf("a%d", q.caller), fmt.Sprintf("q%d", q.caller))
+			}
+			// the rest of the first wave and the second wave, interleaved at random
+			all := append(append([]peerReq{}, reqs2...), func() []peerReq {
+				var x []peerReq
+				for _, idx := range order[split:] {
+					x = append(x, reqs[idx])
+				}
+				return x
+			}()...)
+			go send(mkStream(r.Perm(len(all)), all))
+		} else {
+			rest := mkStream(order[split:], reqs)
+			go send(append(first, rest...))
+		}
+		okAll := waitWG(wg, 10*time.Second)
+		if wg2 != nil {
+			okAll = waitWG(wg2, 10*time.Second) && okAll
+		}
+		if !okAll || hung {
+			c.oracleFail("C09/hang", fmt.Sprintf("calls did not return (K=%d, second wave %d after %d replies)", K, K2, split), line)
 		} else {
 			for j := 0; j < K; j++ {
 				if msg := checkResult(kinds[j], j, res[j], msize); msg != "" {
 					c.oracleFail("C09/own-reply/"+kinds[j], msg, line)
 				}
 			}
+			for j := 0; j < K2; j++ {
+				if msg := checkResult(kinds[K+j], K+j, res2[j], msize); msg != "" {
+					c.oracleFail("C09/own-reply/"+kinds[K+j], msg, line)
+				}
+			}
 			c.count(fmt.Sprintf("K:%d", K))
+			c.count(fmt.Sprintf("wave2:%d", K2))
 			// the model's accounting after the same schedule
 			c.emit(fmt.Sprintf("clntrun %d %s", poolSize, strings.Join(evs, " ")), modelAcct(cl), true)
 		}
@@ -232,21 +328,22 @@ func genC09(c *Ctx) {
 		p := newPeer(b, 256)
 		go func() {
 			for q := range p.reqs {
-				b.Write(reply("ok", q, 256))
+				b.Write(reply(conKind(q.caller), q, 256))
 			}
 		}()
 		cl, err := g.Connect(pconn{a}, 256, true)
 		if err != nil {
 			continue
 		}
-		N := 70000
+		N := 110000 // two thirds answered with Rerror or a reply of the wrong type: more of those than there are tags
 		okc := 0
 		done := make(chan bool)
 		go func() {
 			for n := 0; n < N; n++ {
 				tc := cl.NewFcall()
 				g.PackTread(tc, 5, uint64(n%200), 10)
-				if rc, err := cl.Rpc(tc); err == nil && bytes.Equal(rc.Data, payloadOf(n%200, 256)) {
+				rc, err := cl.Rpc(tc)
+				if checkResult(conKind(n%200), n%200, callRes{rc, err, true}, 256) == "" {
 					okc++
 				}
 			}
@@ -264,7 +361,7 @@ func genC09(c *Ctx) {
 		if vi.FreeTags+vi.Cached != poolSize {
 			c.oracleFail("C09/tag-accounting", fmt.Sprintf("%d tags available after %d completed calls, pool is %d", vi.FreeTags+vi.Cached, N, poolSize), line)
 		}
-		c.count("consecutive-70000")
+		c.count("consecutive-110000")
 		cl.Unmount()
 		a.Close()
 		b.Close()
@@ -272,6 +369,8 @@ func genC09(c *Ctx) {
 		c.emit(line, "*", true)
 	}
 }
+
+func conKind(caller int) string { return []string{"ok", "rerror", "mismatch"}[caller%3] }
 
 // modelAcct renders the client's bookkeeping in the vocabulary of `clntrun`.
 func modelAcct(cl *g.Clnt) string {
